@@ -406,7 +406,12 @@ def check_attached(case):
         kw["orientation"] = case["orientation"]
     if P != "EME2000":
         kw["parent"] = get_frame(P)
-    frame = ref.as_frame(name, **kw)
+    if _counter[0] % 3 == 0:
+        from beyond.frames.frames import orbit2frame
+
+        frame = orbit2frame(name, ref, kw.get("orientation"), kw.get("parent", get_frame("EME2000")))   # positional spelling
+    else:
+        frame = ref.as_frame(name, **kw)
     # a bare state has no motion and belongs to its own date (which day's TEME / MOD axes its coordinates refer to
     # at another date is not defined): it is used at that date only
     dts = case["dts"] if kind != "statevector" else [0.0, 0.0]
@@ -1534,6 +1539,18 @@ def check_dkep(case):
     if float(np.linalg.norm(dvi - want)) > kf * mag + 1e-16 * vn:
         raise Violation("dkep-man-axes", f"KeplerianImpulsiveMan.dv = {dvi.tolist()} for a state held in form {form}, "
                         f"TNW^T . dkep2dv = {want.tolist()}", form=form)
+    # the continuous flavour spreads the same delta-v over its duration: accel = TNW^T . dkep2dv / duration
+    from beyond.dates import timedelta as _td
+    from beyond.orbits.man import KeplerianContinuousMan
+
+    secs = 10 ** (1 + 3 * ((case["t"] % 1000) / 1000.0))      # 10 s .. 10^4 s, from the drawn date (no extra draw)
+    with np.errstate(all="ignore"):
+        kacc = np.asarray(KeplerianContinuousMan(date, _td(seconds=secs), da=da, di=di, dOmega=dO).accel(
+            sv.copy(form="cartesian")), float)
+    secs = _td(seconds=secs).total_seconds()
+    if kacc.shape != (3,) or not np.all(np.isfinite(kacc)) or float(np.linalg.norm(kacc * secs - want)) > 10 * kf * mag + 1e-16 * vn:
+        raise Violation("dkep-continuous", f"KeplerianContinuousMan(da={da!r}, di={di!r}, dOmega={dO!r}, {secs} s).accel x duration = "
+                        f"{(kacc * secs).tolist()}, TNW^T . dkep2dv = {want.tolist()}")
     # realised increments
     c2 = np.array(c, float)
     c2[3:] += dvi
